@@ -362,6 +362,9 @@ func genAmount(r *rng, o genOpts, sym string, mant int64, dec int) GAmount {
 	}
 	if o.Quoted && strings.ContainsAny(sym, " 0123456789") {
 		a.Quoted = true
+		a.Side = pick(r, []string{"L", "R"})
+		a.Glue = false
+		a.SignAfter = true // "A B" -5 (a sign before the opening quote is not in G)
 	}
 	if r.chance(30) {
 		a.DecMark = ","
